@@ -1,7 +1,7 @@
 SPECIFICATION Spec
 CONSTANTS
   PEERS = {"p1","p2"}
-  CIDS = {"c1","c2"}
-  MaxOps = 3
-  MaxOut = 0
+  CIDS = {"c1"}
+  MaxOps = 2
+  MaxOut = 1
 INVARIANTS E2EInv AllocInv ErrorKept
